@@ -110,7 +110,8 @@ Qed.
 Lemma item_layout b it : item_ok b it = true -> item_decodes_l b it.
 Proof.
   intros Hv x d q Hx Hp.
-  destruct it as [dd|w|r|id]; simpl in Hx, Hv; destruct (on_msg_inv _ _ _ _ Hx) as (xm & -> & Hc).
+  destruct it as [dd|w|r|id|pn]; [| | | |discriminate Hv];
+  simpl in Hx, Hv; destruct (on_msg_inv _ _ _ _ Hx) as (xm & -> & Hc).
   - destruct (dense_decodes b dd Hv d q Hp) as (d' & E & Hp'). exists d'. split; [|exact Hp'].
     rewrite <- E. unfold group_step. simpl. rewrite (scan_dense_layout _ _ _ xm dd _ Hc). reflexivity.
   - destruct (way_decodes b w Hv d q Hp) as (d' & E & Hp'). exists d'. split; [|exact Hp'].
@@ -266,4 +267,25 @@ Proof.
   { unfold valid_block in Hv. apply andb_prop in Hv. destruct Hv as [_ Hv]. exact Hv. }
   destruct (pass2_layout b _ _ (mkD (bp b) (d_dc st) (d_wc st)) [] Hm Hg eq_refl) as (d' & E & _).
   rewrite E. reflexivity.
+Qed.
+
+(* REFUTED: field_order_irrelevant with the FORMAT's canonical form (mcanon_block: chunks of a split
+   packed column concatenated, as the protobuf encoding rules demand of every parser) instead of
+   canon_block is false of the faithful model (and of the implementation: replayed, known finding
+   "packed-column-split"): a way whose refs column [1; 2] is written as two chunks decodes silently to
+   a way with the single node 1 — the iterator of the second chunk replaces the first. *)
+Definition split_witness_block : block_d :=
+  mkBlockD [[]] false None None None None
+    [[IWay (mkWayD 7 false (mkFl false false false false false false) (mkInfoD 0 0 0 0 0 true) [] false [1; 2] false false [] [])]].
+Definition split_witness_tree : msg :=
+  [(1, WMsg [(1, WStr [])]); (2, WMsg [(3, WMsg [(1, WVar 7); (8, WPacked [2]); (8, WPacked [2])])])].
+
+Theorem split_packed_refuted :
+  valid_block split_witness_block = true
+  /\ mcanon_block split_witness_tree = encode_block split_witness_block
+  /\ elements split_witness_block = [OWay (mkWay 7 info0 [] [mkWN 1 0 0; mkWN 2 0 0])]
+  /\ forall st, scan_result cfg_all st split_witness_tree = Ok [OWay (mkWay 7 info0 [] [mkWN 1 0 0])].
+Proof.
+  split; [vm_compute; reflexivity|]. split; [vm_compute; reflexivity|]. split; [vm_compute; reflexivity|].
+  intros st. rewrite (scan_result_state_independent cfg_all st dstate0). vm_compute. reflexivity.
 Qed.
